@@ -320,9 +320,20 @@ def rule_body(ctx, case):
 def schedule_strategy(draw, T):
     """JSON switch in the vocabulary of scenes._switch; mostly schedules with both kinds of transition."""
     kind = draw(st.sampled_from(["window", "window", "window", "interval", "interval", "fixed", "fixed", "fixed",
-                                 "half", "off", "always"]))
+                                 "half", "off", "always", "duration", "duration"]))
     if kind == "always":
         return {}
+    if kind == "duration":  # window given by a duration (seconds or periods), alone or anchored at one edge
+        n = draw(st.integers(0, max(0, T - 4)))
+        s = {"on_for_steps": n}
+        edge = draw(st.sampled_from(["none", "none", "none", "start", "end"]))
+        if edge == "start":
+            s["start_step"] = draw(st.integers(1, max(1, T - 3 - n)))
+        elif edge == "end":
+            s["end_step"] = draw(st.integers(n, T - 2))
+        if draw(st.booleans()):
+            s["periods"] = True
+        return s
     if kind == "off":
         return {"is_always_off": True}
     if kind == "fixed":
@@ -566,6 +577,8 @@ def _sched_kind(sw):
         return "off"
     if "fixed_on_time_steps" in sw:
         return "fixed"
+    if "on_for_steps" in sw:
+        return "duration"
     if "interval" in sw:
         return "interval"
     return "window" if "end_step" in sw and sw.get("start_step", 0) > 0 else "half"
@@ -585,8 +598,8 @@ SUBS = [
     Sub(name="rule", body=rule_body, cases=rule_cases, lanes=("f64",), exhaustive=True, exhaustive_quick=False,
         rule="finite grid of schedules x all step counts 1..24 against the exact-rational window rule; "
              "over-specified schedules must raise"),
-    Sub(name="runs", body=runs_body, strategy=lambda ctx: runs_strategy(ctx), quick=11, thorough=640,
-        lanes=("f64", "f32"), f32_fraction=0.4, quick_shards=1, max_seconds_quick=240.0,
+    Sub(name="runs", body=runs_body, strategy=lambda ctx: runs_strategy(ctx), quick=24, thorough=640,
+        lanes=("f64", "f32"), f32_fraction=0.4, quick_shards=2, max_seconds_quick=240.0,
         rule="small runs with scheduled sources/detectors: source-free twin scene at inactive steps, always-on "
              "twin detectors, row-by-row state model"),
 ]
